@@ -34,7 +34,8 @@ ASSUMPTIONS = ['amplifier bands are read from the loaded equipment library (f_mi
 REQUIRED_COUNTERS = {'stock_tests_run': 5, 'stock_element_identity_checks': 300, 'launch_filter_checks': 40, 'element_identity_checks': 300, 'multiband_partition_checks': 20,
                      'order_independence_checks': 15, 'invalid_spectrum_checks': 10, 'edge_channels': 20}
 CASE_TIMEOUT = {'quick': 400, 'thorough': 1800}
-FLAVS = ['multiband', 'multiband_gen', 'narrow', 'mesh', 'multiband_gen', 'multiband', 'narrow', 'invalid', 'wide_mixed']
+FLAVS = ['multiband', 'multiband_gen', 'narrow', 'mesh', 'multiband_gen', 'multiband', 'narrow', 'invalid', 'wide_mixed',
+         'multiband_touch']
 
 
 def plan(tier, seed):
@@ -73,6 +74,14 @@ def edge_carriers(rng, edges, f_lo, f_hi):
     """Carrier list with channels glued to the given band edges (inside, exactly on, 1 Hz outside) and fillers."""
     cs = []
     for e in edges:
+        if rng.random() < 0.2:
+            # a channel centred ON the edge: half of its slot lies outside this band (where two bands share the edge the
+            # channel is in neither of them)
+            slot = G.pick(rng, [50e9, 75e9, 100e9])
+            cs.append({'frequency': float(e), 'slot_width': slot, 'baud_rate': G.pick(rng, [28e9, 32e9, 44e9]),
+                       'roll_off': 0.15, 'tx_osnr': 40, 'tx_power_dbm': G.rnd(rng, -6, 3, 2), 'delta_pdb': 0,
+                       'label': f'astride-{len(cs)}'})
+            continue
         if rng.random() < 0.75:
             slot = G.pick(rng, [37.5e9, 50e9, 75e9, 100e9])
             side = G.pick(rng, [+1, -1])                  # channel lies above (+1) or below (-1) the edge
@@ -257,6 +266,20 @@ def run_case(case, ctx):
             ctx.reject(f'{type(e).__name__}: {str(e)[:120]}')
             return
         SimParams.set_params({})
+    elif flav == 'multiband_touch':
+        # C+L amplifiers whose two bands are contiguous (the L band ends where the C band starts)
+        def touch(ej):
+            for e in ej['Edfa']:
+                if e.get('type_def') == 'multi_band' or 'f_min' not in e:
+                    continue
+                if e['f_max'] < 191e12:
+                    e['f_max'] = 191.25e12
+                elif e['f_min'] < 192e12:
+                    e['f_min'] = 191.25e12
+        b = P.build_multiband(rng, ej_hook=touch, three=False)
+        scen = {'equipment': b['equipment'], 'network': b['network'], 'tj': b['tj'], 'ej': b['ej']}
+        ctx.count('networks_with_contiguous_bands')
+        SimParams.set_params({})
     elif flav == 'narrow':
         scen = build_narrow(rng)
         SimParams.set_params({})
@@ -274,7 +297,7 @@ def run_case(case, ctx):
             continue
         amps = [n for n in path if isinstance(n, (Edfa, Multiband_amplifier))]
         edges = sorted({e for am in amps for b in amp_bands_of(am) for e in b})
-        multiband = flav.startswith('multiband') or flav == 'wide_mixed'
+        multiband = flav.startswith('multiband') or flav == 'wide_mixed'   # (multiband_touch included)
         f_lo, f_hi = (186.2e12, 196.4e12) if multiband else (190.9e12, 196.5e12)
         carriers = edge_carriers(rng, edges, f_lo, f_hi)
         if rng.random() < 0.15 and multiband and carriers:
